@@ -293,8 +293,9 @@ def _elem_logpdf(spec, P, xi, i):
             mu, s = P[0, d], P[1, d]
             if np.real(s) <= 0 or np.real(x) < 0:
                 return -np.inf
+            # log(1 - Phi(-mu/s)) = log Phi(mu/s), evaluated tail-safe (complex-safe as well)
             tot = tot - 0.5 * LOG2PI - np.log(s) - (x - mu) ** 2 / (2 * s ** 2) \
-                - np.log(1.0 - _phi_cdf(-mu / s))
+                - special.log_ndtr(mu / s)
         elif k == 'pooled':
             if not _same(x, P[0, d]):
                 return -np.inf
